@@ -571,3 +571,7 @@ impl CompletionStatus {
         unsafe { &mut self.get_unchecked_mut().waker }
     }
 }
+
+#[cfg(bytecodealliance_wit_bindgen_verif)]
+#[path = "/verif/harness/peek_waitable.rs"]
+pub(crate) mod verif_peek;
